@@ -260,8 +260,13 @@ namespace
 
 	void SkipValueImpl(std::string_view inputData, size_t& pos)
 	{
-		if (pos < inputData.size())
+		// Nested values are counted instead of using recursion (depth of nesting is controlled by the input)
+		for (uint64_t remainingValues = 1; remainingValues != 0; --remainingValues)
 		{
+			if (pos >= inputData.size()) {
+				throw ParsingException("No more values to read", 0, pos);
+			}
+
 			const auto& byteCodeInfo = ByteCodeTable[static_cast<uint_fast8_t>(inputData[pos++])];
 
 			size_t size = byteCodeInfo.DataSize;
@@ -282,32 +287,18 @@ namespace
 				extSize = 0;
 			}
 
-			if (pos + size <= inputData.size())
-			{
-				pos += size;
-				if (extSize)
-				{
-					if (byteCodeInfo.Type == ValueType::Map)
-					{
-						for (uint32_t i = 0; i < extSize; ++i)
-						{
-							SkipValueImpl(inputData, pos);
-							SkipValueImpl(inputData, pos);
-						}
-					}
-					else if (byteCodeInfo.Type == ValueType::Array)
-					{
-						for (uint32_t i = 0; i < extSize; ++i)
-						{
-							SkipValueImpl(inputData, pos);
-						}
-					}
-				}
-				return;
+			if (pos + size > inputData.size()) {
+				throw ParsingException("Unexpected end of input archive", 0, pos);
 			}
-			throw ParsingException("Unexpected end of input archive", 0, pos);
+
+			pos += size;
+			if (byteCodeInfo.Type == ValueType::Map) {
+				remainingValues += static_cast<uint64_t>(extSize) * 2;
+			}
+			else if (byteCodeInfo.Type == ValueType::Array) {
+				remainingValues += extSize;
+			}
 		}
-		throw ParsingException("No more values to read", 0, pos);
 	}
 
 	void HandleMismatchedTypesPolicy(std::string_view inputData, size_t& pos, ValueType actualType, MismatchedTypesPolicy mismatchedTypesPolicy)
@@ -875,8 +866,14 @@ namespace
 
 	void SkipValueImpl(Detail::CBinaryStreamReader& binaryStreamReader)
 	{
-		if (const auto byteCode = binaryStreamReader.ReadByte())
+		// Nested values are counted instead of using recursion (depth of nesting is controlled by the input)
+		for (uint64_t remainingValues = 1; remainingValues != 0; --remainingValues)
 		{
+			const auto byteCode = binaryStreamReader.ReadByte();
+			if (!byteCode) {
+				throw ParsingException("No more values to read", 0, binaryStreamReader.GetPosition());
+			}
+
 			const auto& byteCodeInfo = ByteCodeTable[static_cast<uint_fast8_t>(*byteCode)];
 
 			size_t size = byteCodeInfo.DataSize;
@@ -897,31 +894,17 @@ namespace
 			}
 
 			// Seeking beyond the end of a stream can succeed (e.g. for files), make sure that the last skipped byte exists
-			if (size == 0 || (binaryStreamReader.SetPosition(binaryStreamReader.GetPosition() + size - 1) && binaryStreamReader.ReadByte().has_value()))
-			{
-				if (extSize)
-				{
-					if (byteCodeInfo.Type == ValueType::Map)
-					{
-						for (uint32_t i = 0; i < extSize; ++i)
-						{
-							SkipValueImpl(binaryStreamReader);
-							SkipValueImpl(binaryStreamReader);
-						}
-					}
-					else if (byteCodeInfo.Type == ValueType::Array)
-					{
-						for (uint32_t i = 0; i < extSize; ++i)
-						{
-							SkipValueImpl(binaryStreamReader);
-						}
-					}
-				}
-				return;
+			if (size != 0 && !(binaryStreamReader.SetPosition(binaryStreamReader.GetPosition() + size - 1) && binaryStreamReader.ReadByte().has_value())) {
+				throw ParsingException("Unexpected end of input archive", 0, binaryStreamReader.GetPosition());
 			}
-			throw ParsingException("Unexpected end of input archive", 0, binaryStreamReader.GetPosition());
+
+			if (byteCodeInfo.Type == ValueType::Map) {
+				remainingValues += static_cast<uint64_t>(extSize) * 2;
+			}
+			else if (byteCodeInfo.Type == ValueType::Array) {
+				remainingValues += extSize;
+			}
 		}
-		throw ParsingException("No more values to read", 0, binaryStreamReader.GetPosition());
 	}
 
 	void HandleMismatchedTypesPolicy(Detail::CBinaryStreamReader& binaryStreamReader, ValueType actualType, MismatchedTypesPolicy mismatchedTypesPolicy)
